@@ -131,13 +131,12 @@ def gen_core(rng, dt, budget):
 
 
 def systematic_core(dt):
-    out = []
+    out = [['a', o, 'b'] for o in dt.binary]
+    out += [[p, 'a'] for p in dt.prefix]
     for o1 in dt.binary:
-        out.append(['a', o1, 'b'])
         for o2 in dt.binary:
             out.append(['a', o1, 'b', o2, 'c'])
     for p in dt.prefix:
-        out.append([p, 'a'])
         for o in dt.binary:
             out.append([p, 'a', o, 'b'])
             out.append(['a', o, p, 'b'])
